@@ -4,7 +4,7 @@ import hashlib, json, os, re, shutil, subprocess, sys, time, glob, random
 
 ROOT = os.path.dirname(os.path.dirname(os.path.abspath(__file__)))
 REPO = os.environ.get("VERIF_REPO", "/repo")
-BUILD = os.path.join(ROOT, "build")
+BUILD = os.environ.get("VERIF_BUILD", os.path.join(ROOT, "build"))
 COQ = os.path.join(ROOT, "coq")
 NPROC = int(os.environ.get("VERIF_JOBS", "16"))
 GUARD = "COLVARS_VERIF"
